@@ -557,6 +557,7 @@ package mcp
 //@   requires h != nil && req != nil
 //@   ensures @dispatch-or-reject dispatched <= 1 && (dispatched == 1 ==> calls(reject) == 0) && (dispatched == 0 ==> calls(reject) == 1)
 //@   ensures @body-is-bounded dispatched == 1 && old(req.Body != nil) && old(h.opts.MaxRequestBodyBytes) > 0 ==> calls(limit) == 1 && callArg(limit, 1, 2) == old(h.opts.MaxRequestBodyBytes)
+//@   ensures @the-host-header-is-what-is-checked calls(loopback) == 2 ==> callArg(loopback, 2, 0) == old(req.Host)
 //@   ensures @loopback-listener-needs-loopback-host calls(loopback) == 2 && callResult(loopback, 1, 0) && !callResult(loopback, 2, 0) ==> dispatched == 0 && callArg(reject, 1, 2) == 403
 //@   ensures @cross-origin-rejected calls(originCheck) == 1 && callResult(originCheck, 1, 0) != nil ==> dispatched == 0 && callArg(reject, 1, 2) == 403
 //@   ensures @unknown-legacy-version-rejected pv != "" && !sdkSupports(pv) && legacy(pv) ==> dispatched == 0
